@@ -53,7 +53,7 @@ TABLE = [
     (r"^[A-Za-z_0-9:]+\|extern\|verify\|.*Tip910MelPowHash", "finding", "D10/D11"),
     (r"^applytx::validate_and_get_doscmint_speed\|assert\|Overflow\(Sub\)\|\$1\.height\.0,1", "inv", "the history lookup at the coin's height succeeded before, so height ≥ 1"),
     (r"^applytx::validate_and_get_doscmint_speed\|extern\|<melstructs::BlockHeight as std::ops::Sub>::sub\|\$1\.height,", "inv", "a coin is never newer than the state applying the batch (C02.R4: height = this.height)"),
-    (r"^applytx::create_next_state\|extern\|base_fee\|", "weights-capped", "every weight handed to base_fee is capped at u128::MAX / (covenants + 1), so the sum inside base_fee cannot overflow (C05.R1, re-evaluated here)"),
+    (r"^applytx::(create_next_state|apply_tx_batch_impl)\|extern\|base_fee\|", "weights-capped", "every weight handed to base_fee is capped at u128::MAX / (covenants + 1), so the sum inside base_fee cannot overflow (C05.R1, re-evaluated here)"),
     (r"^applytx::(check_tx_validity|check_dosc_total_output)\|extern\|total_outputs\|", "totals-gate", "every batch member passed load_relevant_coins' output_totals_fit gate (checked sums of the outputs per denomination and of the fee) before anything calls total_outputs on it (C01.R9, re-evaluated here)"),
     (r"^applytx::validate_and_get_doscmint_speed\|unwrap\|(expect|unwrap)\|core::slice::<impl \[T\]>::get\(\$3\.inputs, 0\)", "inv", "runs after check_tx_validity accepted the tx: total_outputs always has a MEL entry, so balancing demands a MEL input (C01.R3 missing=>err)"),
     (r"^coins::CoinMapping::(coin_count|get_coin|remove_coin)\|unwrap\|unwrap\|stdcode::deserialize\(Tree::get\(\$1\.inner", "inv", "coin keys and count keys are domain-separated and written only by this module with stdcode of the matching type (C20.R1/R2)"),
@@ -393,7 +393,38 @@ def shared(ctx):
     core.import_rules(ctx, [c06.r5_activation_table], "X06")          # ERG/SYM exists where it is unwrapped because creation and use ask the same predicate (tip_902)
 
 
-RULES = [r1_inventory, r2_recursion, r3_loops, shared]
+def r4_value_nesting(ctx):
+    """Recursion that the call graph of the workspace does not show: the drop glue of a recursive data type.  `Value::Vector(CatVec<Value>)` nests without a
+    bound — VPush / VCons wrap the value on the stack into a new vector at a cost of 10 weight units per level — and dropping an n-deep value recurses n
+    levels deep (catvec's and the compiler's drop glue).  A stack overflow is not a panic: the process aborts (SIGABRT), nothing can catch it.  Necessary for
+    'never a crash': the nesting depth of a Value is bounded by a check in the interpreter, or Value drops its contents iteratively (a `Drop` impl in the
+    interpreter crate).  Neither exists today (D25)."""
+    r = ctx.rule("R4", "a MelVM value cannot nest deeper than the stack can unwind: depth bounded by a check, or dropped iteratively", positional=False)
+    adt = ctx.prog.adts.get("melvm::value::Value") or ctx.prog.adts.get("melvm::Value")
+    if not adt:
+        r.undecided("value-nesting", "ADT melvm::Value not found")
+        return
+    rec = [v["name"] for v in adt["variants"] for f in v["fields"] if "Value" in f["ty"].replace("melvm::", "")]
+    if not rec:
+        r.ok("value-nesting/type", "Value is not a recursive type any more")
+        return
+    drops = [b for b in ctx.prog.bodies if b.crate == "melvm" and "Value as std::ops::Drop>::drop" in b.nname]
+    st = ctx.prog.body("melvm::executor::Executor::step")
+    guards = []
+    if st is not None:
+        for c in ctx.prog.all_nested(st):
+            guards += [cn for e, cn, bi in q.cmp_atoms(c) if "depth" in cn.lower() or "nesting" in cn.lower()]
+    if drops:
+        r.ok("value-nesting/iterative-drop", "Value has its own Drop (%s)" % drops[0].nname)
+    elif guards:
+        r.undecided("value-nesting", "the interpreter compares something called depth/nesting (%s): whether it bounds the nesting of values is not decided" % guards[:2])
+    else:
+        r.violation("value-nesting/unbounded", "Value::%s holds Values, nothing bounds how deep they nest (no depth check in Executor::step) and Value has no iterative Drop: "
+                    "`VEmpty; Loop(n,2); VEmpty; VPush` (8 bytes, weight 14n+19) builds an n-deep vector whose drop overflows the stack — the validator process aborts" % "/".join(rec),
+                    "%s:%s" % (st.file, st.line) if st is not None else None)
+
+
+RULES = [r1_inventory, r2_recursion, r3_loops, r4_value_nesting, shared]
 
 
 def thorough_extra(ctx):
